@@ -1,9 +1,39 @@
 import Driver.Util
 import Driver.Selftest
+import Driver.Seq
+import Driver.Codec
+import Driver.Ckpt
+import Driver.Lock
+import Driver.Localfs
+import Driver.Aftersun
+import Driver.Skylight
+import Driver.Health
+import Driver.Witness
+import Driver.Subtree
+import Driver.Submit
+import Driver.Client
+import Driver.Mirror
+import Driver.Recompute
+import Driver.Merkle
 
 def main (args : List String) : IO UInt32 := do
   match args with
   | "selftest" :: _ => Driver.Selftest.main
+  | "seq" :: _ => Driver.Seq.main
+  | "codec" :: _ => Driver.Codec.main
+  | "ckpt" :: _ => Driver.Ckpt.main
+  | "lock" :: _ => Driver.Lock.main
+  | "localfs" :: _ => Driver.Localfs.main
+  | "aftersun" :: _ => Driver.Aftersun.main
+  | "skylight" :: _ => Driver.Skylight.main
+  | "health" :: _ => Driver.Health.main
+  | "witness" :: _ => Driver.Witness.main
+  | "subtree" :: _ => Driver.Subtree.main
+  | "submit" :: _ => Driver.Submit.main
+  | "client" :: _ => Driver.Client.main
+  | "mirror" :: _ => Driver.Mirror.main
+  | "recompute" :: _ => Driver.Recompute.main
+  | "merkle" :: _ => Driver.Merkle.main
   | _ =>
     IO.eprintln s!"drv: unknown engine {args}"
     return 2
